@@ -30,7 +30,7 @@ def _collect(repo, W, clause, rule, only_funcs=None):
         if fn is None:
             fn = FileObj("?", qual)
         obs.append(Ob(rule, clause, fn, node, ok, "%s: %s" % (what, detail),
-                      slot="%s:%s" % (what, re.sub(r"\s+", " ", ast.unparse(node))[:100])))
+                      slot="%s:%s" % (what, re.sub(r"\s+", " ", ast.unparse(node))[:100]), positive=True))
     return obs
 
 
@@ -63,7 +63,8 @@ def C_idx_find(repo, clause):
         st = [c for c in calls_in(fnobj) if call_name(c) == "atoms_of_type"]
         obs.append(Ob("Cidx", clause, fnobj, st[0] if st else fnobj.node, False,
                       "start atoms are not restricted to the home-cell block [0:len(structure)] of the image lists: every periodic occurrence is then generated once per image",
-                      slot="home-block:missing"))
+                      slot="home-block:missing",
+                      positive=bool(st) and bool(st[0].args) and not any(isinstance(x, ast.Subscript) for x in ast.walk(expand(fnobj, st[0].args[0])))))
     if not any(not o.ok for o in obs):
         floor("Cidx", "typed index obligations in the search", len(obs), 20)
         for need, n in (("fold idx%len", 2), ("subscript", 12), ("mat-subscript", 3), ("map-lookup", 1), ("home-block", 1)):
@@ -76,7 +77,8 @@ def C_idx_find(repo, clause):
         isa.is_(rt[1][0][2], "seq") and isa.is_(rt[1][0][2][2], "idx") and W.same(rt[1][0][2][2][1], S)
     obs.append(Ob("Cidx", clause, fnobj, fnobj.node, ok,
                   "the three results (index tuples, positions, rotations) are enumerated by the same match space and the indices are unit-cell atom indices: %s" % (str(rt)[:160]),
-                  construct="return (indices, positions, rotations)", slot="return-shape"))
+                  construct="return (indices, positions, rotations)", slot="return-shape",
+                  positive=isa.is_(rt, "tup") and len(rt[1]) == 3 and all(isa.is_(x, "seq") and x[1] for x in rt[1])))
     # same fold expression in result, positions and grouping key
     obs.extend(_fold_agreement(repo, fnobj, clause))
     return obs
@@ -362,7 +364,7 @@ def C_unchanged_pairs(repo, clause):
     obs.append(Ob("Cpair", clause, rp, c, widened is None,
                   "atoms count as shared only when their coordinates coincide: the call %s" % (
                       "keeps the callee's tolerance" if widened is None else "overrides %s with %s (a looser tolerance keeps an old atom where the replacement moved it)" % (widened[0], ast.unparse(widened[1]))),
-                  slot="shared-atom-tolerance"))
+                  slot="shared-atom-tolerance", positive=True))
     # called after both origin shifts
     pre = [x for x in calls_in(rp) if isinstance(x.func, ast.Attribute) and x.func.attr == "translate" and RL.loop not in list(rp.ancestors(x))]
     ok = len(pre) == 2 and all(rp.cfg.dominates(rp.stmt_of(x), rp.stmt_of(c)) for x in pre)
@@ -430,8 +432,9 @@ def C_axis_diag(repo, clause):
             else:
                 gs = norm_guards(fn, c)
                 for t, pol, k in gs:
-                    txt = ast.unparse(t)
-                    if "cell_is_orthorhombic" in txt and isinstance(t, ast.Call) and pol:
+                    te = expand(fn, t)
+                    txt = ast.unparse(te)
+                    if "cell_is_orthorhombic" in txt and isinstance(te, ast.Call) and pol:
                         ok, why = True, "dominated by the guard %s" % txt
                 if not ok:
                     # post-validation (LAMMPS orientation): an `if not orthorhombic:` block that raises unless the upper triangle is zero
@@ -454,6 +457,33 @@ def C_axis_diag(repo, clause):
                 why = "np.diag(cell) is used as the box lengths with NO orthorhombic guard: for a tilted cell the diagonal is not a lattice vector"
             obs.append(Ob("Caxis", clause, fn, c, ok, why, slot="diag:%s" % re.sub(r"\s+", " ", ast.unparse(fn.stmt_of(c)))[:70]))
     floor("Caxis", "np.diag(cell) sites", n, 6)
+    # the orthorhombic test itself: all six off-diagonal entries must be examined
+    co = repo.fn("Atoms.cell_is_orthorhombic")
+    rets = [r for r in co.own_nodes() if isinstance(r, ast.Return)]
+    if len(rets) == 1:
+        e = expand(co, rets[0].value)
+        txt = re.sub(r"\s", "", ast.unparse(e))
+        whole = "count_nonzero(self.cell-np.diag(np.diag(self.cell)))" in txt
+        for c_ in ast.walk(e):
+            if isinstance(c_, ast.Compare) and len(c_.ops) == 1 and isinstance(c_.ops[0], ast.Eq):
+                sides = [ast.unparse(c_.left), ast.unparse(c_.comparators[0])]
+                if "self.cell" in sides and any("np.diag(self.cell)" in sd for sd in sides if sd != "self.cell"):
+                    whole = True
+            if isinstance(c_, ast.Call) and call_name(c_) in ("allclose", "array_equal") and len(c_.args) >= 2:
+                sides = [ast.unparse(a_) for a_ in c_.args[:2]]
+                if "self.cell" in sides and any("np.diag(self.cell)" in sd for sd in sides if sd != "self.cell"):
+                    whole = True
+        entries = set()
+        for s_ in ast.walk(e):
+            if isinstance(s_, ast.Subscript) and ast.unparse(s_.value) == "self.cell" and isinstance(s_.slice, ast.Tuple) and len(s_.slice.elts) == 2:
+                ij = tuple(const_value(x) for x in s_.slice.elts)
+                if None not in ij and ij[0] != ij[1]:
+                    entries.add(ij)
+        ok = whole or len(entries) == 6
+        obs.append(Ob("Caxis", clause, co, rets[0], ok,
+                      "orthorhombic test compares the whole cell matrix with its diagonal part%s" % (
+                          "" if ok else " -- only the off-diagonal entries %s are examined: a cell with other non-zero off-diagonal entries is classed as orthorhombic" % sorted(entries)),
+                      slot="orthorhombic-test", positive=bool(entries) and len(entries) < 6))
     return obs
 
 
@@ -533,15 +563,12 @@ def C_axis_replicate(repo, clause):
     if len(tr) != 1:
         raise AnalysisError("C12: image translation not found")
     a = expand(fn, tr[0].args[0], stop_names=[])
-    ok = False
     how = ast.unparse(a)
-    if isinstance(a, ast.Call) and call_name(a) in ("matmul", "dot") and len(a.args) == 2:
-        x, y = ast.unparse(a.args[0]), ast.unparse(a.args[1])
-        ok = (x.endswith(".cell.T") and not y.endswith(".cell")) or (y.endswith(".cell") and not x.endswith(".cell.T") and not x.endswith(".cell"))
-    elif isinstance(a, ast.BinOp) and isinstance(a.op, ast.MatMult):
-        x, y = ast.unparse(a.left), ast.unparse(a.right)
-        ok = (x.endswith(".cell.T")) or (y.endswith(".cell"))
-    obs.append(Ob("Caxis", clause, fn, tr[0], ok, "image offset `%s` = sum over lattice vectors of multiplier_k * row_k (contracts the lattice axis)" % how, slot="image-translation"))
+    from .common import vec_mat_form
+    form = vec_mat_form(a, lambda x: ast.unparse(x).endswith(".cell"))
+    ok = form == "M"
+    obs.append(Ob("Caxis", clause, fn, tr[0], ok, "image offset `%s` = sum over lattice vectors of multiplier_k * row_k (contracts the lattice axis): form %s" % (how, form),
+                  slot="image-translation", positive=form is not None))
     # multipliers: range(r) per dimension, zero image removed exactly once
     mg = [c for c in calls_in(fn) if call_name(c) == "meshgrid"]
     ok = False
@@ -574,14 +601,27 @@ def C_axis_windows(repo, clause, only_images=False):
     obs = []
     uo = repo.fn("uc_neighbor_offsets")
     mg = [c for c in calls_in(uo) if call_name(c) == "meshgrid"]
-    ok = len(mg) == 1 and len(mg[0].args) == 3 and all(isinstance(a, (ast.List, ast.Tuple)) and sorted(const_value(x) for x in a.elts) == [-1, 0, 1] for a in mg[0].args)
-    obs.append(Ob("Caxis", clause, uo, mg[0] if mg else uo.node, ok, "image multipliers are {-1, 0, 1} on each of three axes (27 images)", slot="27-images"))
-    mm = [c for c in calls_in(uo) if call_name(c) in ("matmul", "dot")]
-    ok = len(mm) == 1 and ast.unparse(mm[0].args[0]) == "%s.T" % uo.params[0]
-    obs.append(Ob("Caxis", clause, uo, mm[0] if mm else uo.node, ok, "offset = cell.T @ multipliers (sum of multiplier_k * lattice row k)", slot="offset-contraction"))
+    margs = [expand(uo, a) for a in mg[0].args] if len(mg) == 1 else []
+    lits = [sorted(const_value(x) for x in a.elts) if isinstance(a, (ast.List, ast.Tuple)) and all(const_value(x) is not None for x in a.elts) else None for a in margs]
+    ok = len(margs) == 3 and all(l == [-1, 0, 1] for l in lits)
+    obs.append(Ob("Caxis", clause, uo, mg[0] if mg else uo.node, ok, "image multipliers are {-1, 0, 1} on each of three axes (27 images): %s" % lits, slot="27-images",
+                  positive=len(margs) == 3 and all(l is not None for l in lits) or (len(mg) == 1 and len(margs) != 3 and not any(isinstance(a, ast.Starred) for a in mg[0].args))))
+    from .common import vec_mat_form
+    forms = []
+    for n_ in uo.own_nodes():
+        if isinstance(n_, (ast.Call, ast.BinOp)):
+            f_ = vec_mat_form(expand(uo, n_), lambda x: ast.unparse(x) == uo.params[0])
+            if f_ is not None:
+                forms.append((n_, f_))
+    ok = len(forms) == 1 and forms[0][1] == "M"
+    obs.append(Ob("Caxis", clause, uo, forms[0][0] if forms else uo.node, ok,
+                  "offset = sum of multiplier_k * lattice ROW k (cell.T @ m, or m @ cell): %s" % [f for _, f in forms], slot="offset-contraction",
+                  positive=len(forms) == 1))
     rs = [c for c in calls_in(uo) if call_name(c) == "reshape"]
-    ok = len(rs) == 1 and [const_value(a) for a in rs[0].args] == [-1, 1, 3]
-    obs.append(Ob("Caxis", clause, uo, rs[0] if rs else uo.node, ok, "multiplier grid is flattened to 27 triples", slot="multiplier-shape"))
+    shp = [const_value(a) for a in rs[0].args] if len(rs) == 1 else []
+    ok = len(rs) == 1 and len(shp) >= 2 and shp[0] == -1 and shp[-1] == 3
+    obs.append(Ob("Caxis", clause, uo, rs[0] if rs else uo.node, ok, "multiplier grid is flattened to rows of three integers (%s)" % shp, slot="multiplier-shape",
+                  positive=len(rs) == 1 and None not in shp and len(shp) >= 2))
     if only_images:
         return obs
     win = repo.fn("_get_positions_from_all_adjacent_unit_cells")
@@ -591,7 +631,8 @@ def C_axis_windows(repo, clause, only_images=False):
     ok = False
     if len(stores) == 2:
         s1, s2 = sorted(stores, key=lambda n: n.lineno)
-        z1 = "np.where" in ast.unparse(s1.targets[0].slice) and "(0, 0, 0)" in ast.unparse(s1.targets[0].slice) and const_value(s1.value.slice) == 0
+        sl1 = ast.unparse(expand(win, s1.targets[0].slice))
+        z1 = "np.where" in sl1 and "(0, 0, 0)" in sl1 and isinstance(s1.value, ast.Subscript) and const_value(s1.value.slice) == 0
         z2 = const_value(s2.targets[0].slice) == 0 and isinstance(s2.value, (ast.Tuple, ast.List)) and all(const_value(x) == 0 for x in s2.value.elts)
         ok = z1 and z2 and win.cfg.dominates(s1, s2)
     obs.append(Ob("Caxis", clause, win, stores[0] if stores else win.node, ok,
@@ -639,6 +680,15 @@ def C_axis_windows(repo, clause, only_images=False):
     floor("Caxis", "plane widths", len(dots), 3)
     ok = sorted(map(lambda p: tuple(sorted(p)), pairs)) == [(0, 1), (0, 2), (1, 2)]
     obs.append(Ob("Caxis", clause, win, nv[0], ok, "the three normals are the cross products of the three distinct row pairs %s" % pairs, slot="normals"))
+    # the normals are the ROWS of the stacked array: their lengths are norms along axis 1
+    nn = [n for n in win.own_nodes() if isinstance(n, ast.Assign) and isinstance(n.value, ast.Call) and call_name(n.value) == "norm"
+          and n.value.args and isinstance(n.value.args[0], ast.Name) and n.value.args[0].id == nvname]
+    if nn:
+        ax = kwarg(nn[0].value, "axis")
+        axv = const_value(ax) if ax is not None else None
+        obs.append(Ob("Caxis", clause, win, nn[0], axv in (1, -1),
+                      "lengths of the plane normals are taken per ROW (axis=1) of the stacked normals (found axis=%s)" % axv, slot="normal-norms-axis",
+                      positive=ax is not None and axv is not None))
     # start atoms from the home block
     return obs
 
